@@ -47,10 +47,11 @@ def base_project():
             ],
             "commands": [
                 {"name": "get_user", "async": False, "rename_all": None,
-                 "params": [{"name": "user_id", "type": "u32"}], "ret": "Result<User, String>", "channels": []},
+                 "params": [{"name": "user_id", "type": "u32"}, {"name": "include_email", "type": "bool"}],
+                 "ret": "Result<User, String>", "channels": []},
                 {"name": "set_status", "async": True, "rename_all": None,
                  "params": [{"name": "new_status", "type": "Status"}], "ret": "Result<(), String>",
-                 "channels": [{"name": "on_progress", "msg": "Progress"}]},
+                 "channels": [{"name": "on_progress", "msg": "Progress"}, {"name": "on_done", "msg": "Status"}]},
             ],
             "events": [{"name": "status-changed", "payload": "Progress"}],
         }],
@@ -353,8 +354,8 @@ class World:
             return d
         for n in sorted(os.listdir(top)):
             p = os.path.join(top, n)
-            if os.path.islink(p) or os.path.isdir(p) or not os.path.isfile(p):
-                d[n] = "dir"          # an obstacle: a directory, or a symbolic link / device standing in for the file
+            if os.path.isdir(p) or not os.path.isfile(p):
+                d[n] = "dir"          # an obstacle: a directory, or a link to a device (a link to a regular file is a file)
             else:
                 st = os.stat(p)
                 d[n] = (st.st_mtime_ns, st.st_ino, open(p, "rb").read())
@@ -744,6 +745,38 @@ def e_unused_struct(d):
             {"name": "x", "type": "u8", "public": True, "rename": None, "skip": False, "validator": None}]})
 
 
+# order-only edits: one per ordered collection that reaches the output
+def e_param_swap(d):
+    d["files"][0]["commands"][0]["params"].reverse()
+
+
+def e_field_swap(d):
+    _struct(d, "User")["fields"].reverse()
+
+
+def e_variant_swap(d):
+    _struct(d, "Status")["fields"].reverse()
+
+
+def e_channel_swap(d):
+    _cmd(d, "set_status")["channels"].reverse()
+
+
+def e_event_swap(d):
+    """order of the emit sites (only meaningful with two or more)"""
+    d["files"][0]["events"].reverse()
+
+
+def e_struct_swap(d):
+    """order of the type definitions within the file"""
+    d["files"][0]["structs"].reverse()
+
+
+def e_force(d):
+    """force: true in the configuration file"""
+    _toggle(d["cfg"], "force", None, True)
+
+
 def e_noise(d):
     f = d["files"][0]
     f["noise"] = not f.get("noise")
@@ -761,15 +794,19 @@ EDITS = {
     "variant_rename": e_variant_rename, "validator": e_validator, "event_name": e_event_name,
     "event_payload": e_event_payload, "event_add": e_event_add, "events_off": e_events_off, "event_site2": e_event_site2, "channel": e_channel, "mode": e_mode,
     "type_mapping": e_type_mapping, "param_case": e_param_case, "field_case": e_field_case,
-    "visualize": e_visualize, "noise": e_noise, "cmd_swap": e_cmd_swap, "cmd_move": e_cmd_move, "unused_struct": e_unused_struct, "map_target": e_map_target, "map_add": e_map_add, "include_private": e_include_private,
+    "visualize": e_visualize, "noise": e_noise, "cmd_swap": e_cmd_swap, "param_swap": e_param_swap, "field_swap": e_field_swap, "variant_swap": e_variant_swap,
+    "channel_swap": e_channel_swap, "event_swap": e_event_swap, "struct_swap": e_struct_swap, "cmd_move": e_cmd_move, "unused_struct": e_unused_struct, "map_target": e_map_target, "map_add": e_map_add, "include_private": e_include_private,
 }
 
 
 def apply_edit(desc, name):
     d = copy.deepcopy(desc)
-    if name.startswith("rt:"):
-        _, t, k = name.split(":")
-        route_edit(d, t, k)
-    else:
-        EDITS[name](d)
+    for part in name.rstrip("!").split("+"):
+        if part.startswith("rt:"):
+            _, t, k = part.split(":")
+            route_edit(d, t, k)
+        elif part == "force":
+            e_force(d)
+        elif part:
+            EDITS[part](d)
     return d
